@@ -125,33 +125,39 @@ def run(chk):
         for f, _ in gens:
             variants += faulty_variants(f, rng, 1 if quick else 3)
         cases = [v for _, v in variants]
-        triples = lcompile.run_both(cases)
-        cli = common.run_lines_parallel(common.IMPLRUN, ["clipath " + hx(c) for c in cases])
-        for (name, _), (c, ri, rm), cl in zip(variants, triples, cli):
-            chk.case(c.hex())
-            chk.count("fault:" + name)
-            txt = c.decode("utf-8", "replace")[:900]
-            if ri.cls != "done":
-                chk.violation("oracle", "fault %s: the compiler did not return (%s)" % (name, ri.cls), input_hex=hx(c), input_text=txt, fault=name)
-                continue
-            if ri.perr == "ok" and name == "unterminated-attribute-list":
-                # known finding F36: a later '}' (the end of the template) closes the open list
-                for kf in common.load_known():
-                    if kf["property"] == "C10" and kf["id"] == "F36" and kf["status"] == "open" and kf not in chk.known_seen:
-                        chk.known_seen.append(kf)
-                chk.count("known-F36")
-                continue
-            if ri.perr == "ok":
-                chk.violation("oracle", "fault %s is accepted (mis-compiled) instead of being refused" % name, input_hex=hx(c), input_text=txt, fault=name)
-                continue
-            why = located(c, ri.perr)
-            if why:
-                chk.violation("oracle", "fault %s: %s" % (name, why), input_hex=hx(c), input_text=txt, fault=name)
-            if not cl.startswith("err"):
-                chk.violation("oracle", "fault %s: the command-line path emits Go code for a refused template" % name, input_hex=hx(c), input_text=txt, fault=name)
-        chk.samples = [{"fault": n, "error": (compilecmp.perr_pos(ri.perr) or ("none",))[-1].decode("utf-8", "replace")[:100] if ri.cls == "done" and ri.perr != "ok" else ri.cls}
-                       for (n, _), (c, ri, rm) in list(zip(variants, triples))[:6]]
-        lcompile.correspondence(chk, triples, ("cls", "perr"))
+        first = None
+        for lo in range(0, len(cases), 15000):
+            part = variants[lo:lo + 15000]
+            triples = lcompile.run_both([v for _, v in part])
+            cli = common.run_lines_parallel(common.IMPLRUN, ["clipath " + hx(c) for _, c in part])
+            for (name, _), (c, ri, rm), cl in zip(part, triples, cli):
+                chk.case(c.hex())
+                chk.count("fault:" + name)
+                txt = c.decode("utf-8", "replace")[:900]
+                if ri.cls != "done":
+                    chk.violation("oracle", "fault %s: the compiler did not return (%s)" % (name, ri.cls), input_hex=hx(c), input_text=txt, fault=name)
+                    continue
+                if ri.perr == "ok" and name == "unterminated-attribute-list":
+                    # known finding F36: a later '}' (the end of the template) closes the open list
+                    for kf in common.load_known():
+                        if kf["property"] == "C10" and kf["id"] == "F36" and kf["status"] == "open" and kf not in chk.known_seen:
+                            chk.known_seen.append(kf)
+                    chk.count("known-F36")
+                    continue
+                if ri.perr == "ok":
+                    chk.violation("oracle", "fault %s is accepted (mis-compiled) instead of being refused" % name, input_hex=hx(c), input_text=txt, fault=name)
+                    continue
+                why = located(c, ri.perr)
+                if why:
+                    chk.violation("oracle", "fault %s: %s" % (name, why), input_hex=hx(c), input_text=txt, fault=name)
+                if not cl.startswith("err"):
+                    chk.violation("oracle", "fault %s: the command-line path emits Go code for a refused template" % name, input_hex=hx(c), input_text=txt, fault=name)
+            if first is None:
+                first = [{"fault": n, "error": (compilecmp.perr_pos(ri.perr) or ("none",))[-1].decode("utf-8", "replace")[:100] if ri.cls == "done" and ri.perr != "ok" else ri.cls}
+                         for (n, _), (c, ri, rm) in list(zip(part, triples))[:6]]
+            lcompile.correspondence(chk, triples, ("cls", "perr"))
+            del triples, cli
+        chk.samples = first or []
         # every error the compiler reports anywhere must be located
         base = lcompile.valid_corpus(rng, 10 if quick else 100)
         more, step = lcompile.neighbours(rng, base, chk.tier, 9000 if quick else 200000)
